@@ -181,3 +181,258 @@ Example C02_nonvacuous :
   option_map (existsb (fun s => str_eqb (s_prop s) (ex "p"))) (stmts_of base_rcfg (b_ratio 1 2) g_split (ex "C"))
   = Some true.
 Proof. vm_compute. reflexivity. Qed.
+
+(** ** INPUT LEVEL (proofs in Proofs/InputLevel.v)
+
+    B. [remove_empty_shapes = true].  Under the hypotheses with which no
+    shape is empty before the shape-level cleaning (binary64, [thr <= 1],
+    fewer than 2^53 triples -- hence class sizes < 2^53 --, no class IRI
+    starting with '%' or "@": [class_iris_ok]):
+    - the shapes are exactly the class keys that have an instance, in order
+      (a requested target without instances produces NO shape);
+    - key present iff [key_passes_occ_kept ... (live_key c I)]: as
+      [key_passes_occ], the witnessing type key not being a class key
+      without instance ([C02_remove_dead_key_refuted]: such a key -- a
+      requested target class nobody is an instance of, that occurs as a value
+      -- is deleted with the class, so the plain IFF is false there);
+    - when every requested target has an instance (in particular in
+      all-classes mode) the IFF is that of [remove_empty = false]. *)
+From Shexer Require Import Model.SerialShexc Proofs.EndToEnd2 Proofs.EndToEnd3 Proofs.InputLevel.
+
+Theorem C02_keys_iff_occ_remove : forall c thr g ns shapes,
+  r_remove_empty c = true -> class_iris_ok c g = true ->
+  wf_frac thr -> fle BAlg thr (fone BAlg) = true -> (N.of_nat (List.length g) < 2 ^ 53)%N ->
+  run_shapes BAlg c thr g = inl (ns, shapes) ->
+  exists I, track (r_tau c) (mode_of c) (r_cap c) g = inl I /\
+    map sh_class shapes =
+      filter (fun cls => (0 <? class_count I cls)%N) (class_keys (targets_of (pcfg_of c)) I) /\
+    (forall sh, In sh shapes ->
+      sh_n sh = class_count I (sh_class sh) /\ (0 < sh_n sh)%N /\ sh_stmts sh <> [] /\
+      (forall inv p vc, In (inv, p, vc) (map (skey (scfg_of c ns)) (sh_stmts sh)) <->
+                        key_passes_occ_kept BAlg c thr I g (live_key c I) (sh_class sh) inv p vc) /\
+      (no_nonliteral_datatype g -> NoDup (map (skey (scfg_of c ns)) (sh_stmts sh)))) /\
+    ((forall t, In t (targets_of (pcfg_of c)) -> (0 < class_count I t)%N) ->
+     forall sh, In sh shapes -> forall inv p vc,
+       In (inv, p, vc) (map (skey (scfg_of c ns)) (sh_stmts sh)) <->
+       key_passes_occ BAlg c thr I g (sh_class sh) inv p vc).
+Proof. exact e2e_keys_iff_occ_remove. Qed.
+Print Assumptions C02_keys_iff_occ_remove.
+
+Theorem C02_live_key_unfold : forall c I k,
+  live_key c I k <-> (In k (class_keys (targets_of (pcfg_of c)) I) -> (0 < class_count I k)%N).
+Proof. intros. reflexivity. Qed.
+
+Theorem C02_key_passes_occ_kept_unfold : forall fa c (thr : F fa) I g kept cls inv p vc,
+  key_passes_occ_kept fa c thr I g kept cls inv p vc <->
+  (inv = true -> r_inverse c = true) /\
+  exists k ck, value_class (r_tau c) p [k] = vc /\
+    (0 < occ (dir_of inv) (r_tau c) I g cls p k ck)%N /\
+    fle fa thr (ratio fa (occ (dir_of inv) (r_tau c) I g cls p k ck) (class_count I cls)) = true /\
+    kept k.
+Proof. intros. reflexivity. Qed.
+
+(** all-classes mode: exactly the statement of [C02_keys_iff_occ] *)
+Theorem C02_keys_iff_occ_remove_all_classes : forall c thr g ns shapes,
+  r_remove_empty c = true -> r_targets c = None -> class_iris_ok c g = true ->
+  wf_frac thr -> fle BAlg thr (fone BAlg) = true -> (N.of_nat (List.length g) < 2 ^ 53)%N ->
+  run_shapes BAlg c thr g = inl (ns, shapes) ->
+  exists I, track (r_tau c) (mode_of c) (r_cap c) g = inl I /\
+    map sh_class shapes = class_keys [] I /\
+    forall sh, In sh shapes ->
+      sh_n sh = class_count I (sh_class sh) /\
+      forall inv p vc, In (inv, p, vc) (map (skey (scfg_of c ns)) (sh_stmts sh)) <->
+                       key_passes_occ BAlg c thr I g (sh_class sh) inv p vc.
+Proof. exact e2e_keys_iff_occ_remove_all. Qed.
+Print Assumptions C02_keys_iff_occ_remove_all_classes.
+
+(** one shape per class.  Empty shapes kept: one shape per class key; a
+    class key without instance is a requested target and its shape has
+    [sh_n = 0] and no statement.  Empty shapes removed: one shape per class
+    key that has an instance, none for the others. *)
+Theorem C02_one_shape_per_class_keep : forall fa c (thr : F fa) g ns shapes,
+  r_remove_empty c = false -> run_shapes fa c thr g = inl (ns, shapes) ->
+  exists I, track (r_tau c) (mode_of c) (r_cap c) g = inl I /\
+    NoDup (map sh_class shapes) /\
+    map sh_class shapes = class_keys (targets_of (pcfg_of c)) I /\
+    forall sh, In sh shapes -> class_count I (sh_class sh) = 0%N ->
+      In (sh_class sh) (targets_of (pcfg_of c)) /\ sh_n sh = 0%N /\ sh_stmts sh = [].
+Proof. exact e2e_one_shape_per_class_keep. Qed.
+Print Assumptions C02_one_shape_per_class_keep.
+
+Theorem C02_one_shape_per_class_remove : forall c thr g ns shapes,
+  r_remove_empty c = true -> class_iris_ok c g = true ->
+  wf_frac thr -> fle BAlg thr (fone BAlg) = true -> (N.of_nat (List.length g) < 2 ^ 53)%N ->
+  run_shapes BAlg c thr g = inl (ns, shapes) ->
+  exists I, track (r_tau c) (mode_of c) (r_cap c) g = inl I /\
+    NoDup (map sh_class shapes) /\
+    map sh_class shapes =
+      filter (fun cls => (0 <? class_count I cls)%N) (class_keys (targets_of (pcfg_of c)) I) /\
+    forall sh, In sh shapes -> (0 < sh_n sh)%N /\ sh_stmts sh <> [].
+Proof. exact e2e_one_shape_per_class_remove. Qed.
+Print Assumptions C02_one_shape_per_class_remove.
+
+(** non-vacuity / sharpness: targets C and S, [i : C], [S : i] (S is a
+    requested target nobody is an instance of and the subject of a typing
+    triple of the instance i).  Empty shapes kept: shapes C (with the inverse
+    key) and S (0 instances, no statement).  Empty shapes removed: only C, and
+    the inverse key, whose count passes, is gone with the class key S. *)
+Definition dead_cfg (re : bool) : rcfg :=
+  {| r_tau := tau; r_targets := Some [ex "C"; ex "S"]; r_ns := []; r_shapes_ns := c_SHAPES_DEFAULT_NAMESPACE;
+     r_cap := (-1)%Z; r_inverse := true; r_remove_empty := re; r_discard_useless := true;
+     r_keep_less_specific := true; r_all_compliant := true; r_disable_or := true; r_allow_redundant_or := false;
+     r_allow_opt := true; r_disable_exact := false; r_disable_comments := false; r_mode := FMixed |}.
+Definition g_dead : graph := [ty "i" "C"; ty "S" "i"].
+Definition I_dead : insts := [(ex "i", [ex "C"])].
+
+Example C02_remove_nonvacuous :
+  class_iris_ok (dead_cfg true) g_dead = true /\
+  track tau (TClasses [ex "C"; ex "S"]) (-1) g_dead = inl I_dead /\
+  class_keys [ex "C"; ex "S"] I_dead = [ex "C"; ex "S"] /\
+  class_count I_dead (ex "C") = 1%N /\ class_count I_dead (ex "S") = 0%N /\
+  keys_of_run BAlg (dead_cfg false) (b_ratio 1 2) g_dead =
+    Some [(ex "C", 1%N, [(false, tau, VClass (ex "C")); (true, tau, VClass (ex "S"))]); (ex "S", 0%N, [])] /\
+  keys_of_run BAlg (dead_cfg true) (b_ratio 1 2) g_dead =
+    Some [(ex "C", 1%N, [(false, tau, VClass (ex "C"))])].
+Proof. vm_compute. repeat split; reflexivity. Qed.
+
+Lemma C02_remove_dead_key_refuted :
+  exists c thr g I ns shapes sh,
+    r_remove_empty c = true /\ class_iris_ok c g = true /\ fle BAlg thr (fone BAlg) = true /\
+    track (r_tau c) (mode_of c) (r_cap c) g = inl I /\
+    run_shapes BAlg c thr g = inl (ns, shapes) /\ In sh shapes /\
+    key_passes_occ BAlg c thr I g (sh_class sh) true tau (VClass (ex "S")) /\
+    ~ In (true, tau, VClass (ex "S")) (map (skey (scfg_of c ns)) (sh_stmts sh)) /\
+    ~ live_key c I (ex "S").
+Proof.
+  destruct (run_shapes BAlg (dead_cfg true) (b_ratio 1 2) g_dead) as [[ns shapes]|e] eqn:E; vm_compute in E; [|discriminate E].
+  injection E as <- <-.
+  eexists (dead_cfg true), (b_ratio 1 2), g_dead, I_dead, _, _, _.
+  split; [reflexivity|]. split; [vm_compute; reflexivity|]. split; [vm_compute; reflexivity|].
+  split; [vm_compute; reflexivity|]. split; [vm_compute; reflexivity|]. split; [left; reflexivity|].
+  split; [|split].
+  - split; [reflexivity|]. exists (ex "S"), (CKn 1). vm_compute. repeat split; reflexivity.
+  - vm_compute. intros [H|[]]. discriminate H.
+  - intros H. assert (Hin : In (ex "S") (class_keys (targets_of (pcfg_of (dead_cfg true))) I_dead)) by (vm_compute; auto).
+    specialize (H Hin). vm_compute in H. discriminate H.
+Qed.
+
+(** C. the value class "non-literal".  [has_node_value dir g i p]: node [i]
+    has an IRI or blank-node value of [p] (inverse: is such a value of some
+    node); [nonlit_count dir I g cls p]: number of (listings of) instances of
+    [cls] with such a value.  [kinds_nested]: among the instances of the
+    class, those with an IRI value all have a BNode value or conversely.
+    [datatypes_literal g]: no literal's datatype reads as a non-literal kind
+    ("IRI", "BNode", "NONLITERAL", a string starting with '%'). *)
+Theorem C02_has_node_value_unfold : forall dir g i p,
+  has_node_value dir g i p = existsb (fun t => touches dir t i && str_eqb (tp t) p && is_node (to t)) g.
+Proof. reflexivity. Qed.
+
+Theorem C02_nonlit_count_unfold : forall dir (I : insts) g cls p,
+  nonlit_count dir I g cls p =
+  sumN (map (fun ie : str * list str => if has_node_value dir g (fst ie) p then count_in cls (snd ie) else 0%N) I).
+Proof. reflexivity. Qed.
+
+Theorem C02_kinds_nested_unfold : forall dir tau (I : insts) g cls p,
+  kinds_nested dir tau I g cls p <->
+  (forall i cs, In (i, cs) I -> In cls cs ->
+     (0 < cnt dir tau I g i p c_IRI_ELEM_TYPE)%N -> (0 < cnt dir tau I g i p c_BNODE_ELEM_TYPE)%N) \/
+  (forall i cs, In (i, cs) I -> In cls cs ->
+     (0 < cnt dir tau I g i p c_BNODE_ELEM_TYPE)%N -> (0 < cnt dir tau I g i p c_IRI_ELEM_TYPE)%N).
+Proof. intros. reflexivity. Qed.
+
+(** the counts of the two kinds are "instances with an IRI / BNode value" *)
+Theorem C02_kind_counts_are_node_values : forall dir tau (I : insts) g i p,
+  datatypes_literal g -> p <> tau ->
+  (has_node_value dir g i p = true <->
+   (0 < cnt dir tau I g i p c_IRI_ELEM_TYPE)%N \/ (0 < cnt dir tau I g i p c_BNODE_ELEM_TYPE)%N).
+Proof.
+  intros dir tau I g i p Hd Hp. split; [apply node_value_kind; exact Hp|].
+  intros [H|H]; [apply (kind_node_value dir tau I g i p c_IRI_ELEM_TYPE) | apply (kind_node_value dir tau I g i p c_BNODE_ELEM_TYPE)];
+    auto.
+Qed.
+Print Assumptions C02_kind_counts_are_node_values.
+
+(** the largest count among IRI, BNode and the references is the union count *)
+Theorem C02_nonliteral_nested : forall dir tau (I : insts) g cls p,
+  datatypes_literal g -> p <> tau -> kinds_nested dir tau I g cls p ->
+  (exists k0, (k0 = c_IRI_ELEM_TYPE \/ k0 = c_BNODE_ELEM_TYPE) /\
+              occ dir tau I g cls p k0 CKplus = nonlit_count dir I g cls p) /\
+  (forall k ck, nonlit_kind k = true -> (occ dir tau I g cls p k ck <= nonlit_count dir I g cls p)%N).
+Proof. exact nonliteral_max_is_union. Qed.
+Print Assumptions C02_nonliteral_nested.
+
+(** without nestedness only the inequality holds *)
+Theorem C02_nonliteral_le_union : forall dir tau (I : insts) g cls p k ck,
+  datatypes_literal g -> p <> tau -> nonlit_kind k = true ->
+  (occ dir tau I g cls p k ck <= nonlit_count dir I g cls p)%N.
+Proof. exact occ_nonlit_le_union. Qed.
+Print Assumptions C02_nonliteral_le_union.
+
+Theorem C02_key_passes_max_union : forall fa c (thr : F fa) I g cls inv p,
+  datatypes_literal g -> p <> r_tau c -> kinds_nested (dir_of inv) (r_tau c) I g cls p ->
+  (key_passes_occ_max fa c thr I g cls inv p VNonLit <->
+   (inv = true -> r_inverse c = true) /\
+   (0 < nonlit_count (dir_of inv) I g cls p)%N /\
+   fle fa thr (ratio fa (nonlit_count (dir_of inv) I g cls p) (class_count I cls)) = true).
+Proof. exact key_passes_occ_max_union. Qed.
+Print Assumptions C02_key_passes_max_union.
+
+(** key (direction, p, non-literal) present iff thr <= (#instances with a
+    non-literal value) / N *)
+Theorem C02_keys_iff_union : forall c thr g ns shapes,
+  r_remove_empty c = false -> wf_frac thr -> datatypes_literal g ->
+  run_shapes BAlg c thr g = inl (ns, shapes) ->
+  exists I, track (r_tau c) (mode_of c) (r_cap c) g = inl I /\
+    forall sh, In sh shapes -> (class_count I (sh_class sh) < 2 ^ 53)%N ->
+    forall inv p, p <> r_tau c -> kinds_nested (dir_of inv) (r_tau c) I g (sh_class sh) p ->
+      (In (inv, p, VNonLit) (map (skey (scfg_of c ns)) (sh_stmts sh)) <->
+       (inv = true -> r_inverse c = true) /\
+       (0 < nonlit_count (dir_of inv) I g (sh_class sh) p)%N /\
+       fle BAlg thr (ratio BAlg (nonlit_count (dir_of inv) I g (sh_class sh) p) (class_count I (sh_class sh))) = true).
+Proof. exact e2e_keys_iff_union. Qed.
+Print Assumptions C02_keys_iff_union.
+
+Theorem C02_keys_iff_union_remove : forall c thr g ns shapes,
+  r_remove_empty c = true -> r_targets c = None -> class_iris_ok c g = true ->
+  wf_frac thr -> fle BAlg thr (fone BAlg) = true -> (N.of_nat (List.length g) < 2 ^ 53)%N ->
+  datatypes_literal g ->
+  run_shapes BAlg c thr g = inl (ns, shapes) ->
+  exists I, track (r_tau c) (mode_of c) (r_cap c) g = inl I /\
+    forall sh, In sh shapes ->
+    forall inv p, p <> r_tau c -> kinds_nested (dir_of inv) (r_tau c) I g (sh_class sh) p ->
+      (In (inv, p, VNonLit) (map (skey (scfg_of c ns)) (sh_stmts sh)) <->
+       (inv = true -> r_inverse c = true) /\
+       (0 < nonlit_count (dir_of inv) I g (sh_class sh) p)%N /\
+       fle BAlg thr (ratio BAlg (nonlit_count (dir_of inv) I g (sh_class sh) p) (class_count I (sh_class sh))) = true).
+Proof. exact e2e_keys_iff_union_remove. Qed.
+Print Assumptions C02_keys_iff_union_remove.
+
+(** non-vacuity: [g_overlap] (a : C; a p u; a p _:x) is nested, the union
+    count is 1 of 1; [g_split] is NOT nested and its union count 2 differs
+    from the largest kind count 1 (finding C02-F1, [C02_split_nonliteral_refuted]) *)
+Definition I_overlap : insts := [(ex "a", [ex "C"])].
+
+Example C02_union_nonvacuous :
+  track tau TAll (-1) g_overlap = inl I_overlap /\
+  kinds_nested Direct tau I_overlap g_overlap (ex "C") (ex "p") /\
+  nonlit_count Direct I_overlap g_overlap (ex "C") (ex "p") = 1%N /\
+  keys_of_run BAlg (with_remove_empty false base_rcfg) (b_ratio 1 1) g_overlap =
+    Some [(ex "C", 1%N, [(false, ex "p", VNonLit); (false, tau, VClass (ex "C"))])].
+Proof.
+  split; [vm_compute; reflexivity|]. split; [|split; vm_compute; reflexivity].
+  left. intros i cs [E|[]] _ _. injection E as <- <-. vm_compute. reflexivity.
+Qed.
+
+Example C02_union_split_not_nested :
+  ~ kinds_nested Direct tau I_split g_split (ex "C") (ex "p") /\
+  nonlit_count Direct I_split g_split (ex "C") (ex "p") = 2%N /\
+  occ Direct tau I_split g_split (ex "C") (ex "p") c_IRI_ELEM_TYPE CKplus = 1%N /\
+  occ Direct tau I_split g_split (ex "C") (ex "p") c_BNODE_ELEM_TYPE CKplus = 1%N.
+Proof.
+  split; [|vm_compute; repeat split; reflexivity].
+  intros [H|H].
+  - specialize (H (ex "a") [ex "C"] (or_introl eq_refl) (or_introl eq_refl)). vm_compute in H.
+    specialize (H eq_refl). discriminate H.
+  - specialize (H (ex "b") [ex "C"] (or_intror (or_introl eq_refl)) (or_introl eq_refl)). vm_compute in H.
+    specialize (H eq_refl). discriminate H.
+Qed.
